@@ -352,45 +352,75 @@ theorem fillArray_spec : ∀ {parts : List Rep} {ts : List Bytes}, AllModels par
     unfold fillArray at hl ⊢
     simp only [List.mapM_cons, hq, hl, Option.bind_eq_bind, Option.bind_some, Option.pure_def]
 
-theorem AllModels.getElem? {ps : List Rep} {ts : List Bytes} (h : AllModels ps ts) (k : Nat) (hk : k < ps.length) :
-    ∃ p t, ps[k]? = some p ∧ ts[k]? = some t ∧ Models p t := by
-  induction h generalizing k with
-  | nil => simp at hk
+theorem copyAll_spec : ∀ {parts : List Rep} {ts : List Bytes}, AllModels parts ts →
+    ∃ l, parts.mapM copy = some l ∧ AllModels l ts := by
+  intro parts ts h
+  induction h with
+  | nil => exact ⟨[], rfl, AllModels.nil⟩
   | cons hp _ ih =>
-    cases k with
-    | zero => exact ⟨_, _, rfl, rfl, hp⟩
-    | succ k' =>
-      obtain ⟨p, t, h1, h2, h3⟩ := ih k' (by simpa using hk)
-      exact ⟨p, t, by simpa using h1, by simpa using h2, h3⟩
+    obtain ⟨l, hl, hf⟩ := ih
+    obtain ⟨q, hq, hqm⟩ := copy_spec hp
+    refine ⟨q :: l, ?_, AllModels.cons hqm hf⟩
+    simp only [List.mapM_cons, hq, hl, Option.bind_eq_bind, Option.bind_some, Option.pure_def]
 
-theorem splitElem_spec {out : List Rep} {ts : List Bytes} (h : AllModels out ts) (k : Nat) (hk : k < out.length)
-    (sep : Bytes) (hs : sep ≠ []) :
-    ∃ l t, ts[k]? = some t ∧ splitElem out k sep = some l ∧ AllModels l (splitAbs sep [] t) := by
-  obtain ⟨p, t, h1, h2, hm⟩ := h.getElem? k hk
-  obtain ⟨parts, hp, hf⟩ := split_rep hm sep
-  rw [split_eq sep t hs] at hf
+/-- the operand `ref` denotes a live, well-formed String with text `t` (an element of `out`, or a String elsewhere) -/
+def RefModels (out : Cells) (ref : Ref) (t : Bytes) : Prop :=
+  match ref with
+  | .ext r => Models r t
+  | .cell k => ∃ r, out[k]? = some (some r) ∧ Models r t
+
+theorem deref_of_models {out : Cells} {ref : Ref} {t : Bytes} (h : RefModels out ref t) :
+    ∃ r, deref out ref = some r ∧ Models r t := by
+  cases ref with
+  | ext r => exact ⟨r, rfl, h⟩
+  | cell k =>
+    obtain ⟨r, hk, hm⟩ := h
+    exact ⟨r, by simp [deref, hk], hm⟩
+
+/-- a cleared array has no readable element -/
+theorem deref_clear_cell (out : Cells) (k : Nat) : deref (clearCells out) (.cell k) = none := by
+  show ((out.map fun _ => (none : Option Rep))[k]?).bind id = none
+  rw [List.getElem?_map]
+  cases out[k]? <;> rfl
+
+theorem deref_clear_ext (out : Cells) (r : Rep) : deref (clearCells out) (.ext r) = some r := rfl
+
+theorem splitInto_spec {out : Cells} {self sep : Ref} {s sp : Bytes} (hs : RefModels out self s) (hp : RefModels out sep sp)
+    (hne : sp ≠ []) : ∃ l, splitInto out self sep = some (liveCells l) ∧ AllModels l (splitAbs sp [] s) := by
+  obtain ⟨rs, h1, hm⟩ := deref_of_models hs
+  obtain ⟨rp, h2, hpm⟩ := deref_of_models hp
+  obtain ⟨parts, hsp, hf⟩ := split_rep hm sp
+  rw [split_eq sp s hne] at hf
   obtain ⟨l, hl, hlf⟩ := fillArray_spec hf
-  exact ⟨l, t, h2, by simp only [splitElem, h1, Option.bind_some, hp, hl], hlf⟩
+  exact ⟨l, by simp only [splitInto, h1, h2, Option.bind_some, hpm.toList, hsp, hl, Option.map_some], hlf⟩
 
-theorem splitSepElem_spec {r : Rep} {s : Bytes} (hm : Models r s) {out : List Rep} {ts : List Bytes} (h : AllModels out ts)
-    (k : Nat) (hk : k < out.length) (hne : ∀ t, ts[k]? = some t → t ≠ []) :
-    ∃ l t, ts[k]? = some t ∧ splitSepElem r out k = some l ∧ AllModels l (splitAbs t [] s) := by
-  obtain ⟨p, t, h1, h2, hpm⟩ := h.getElem? k hk
-  obtain ⟨parts, hp, hf⟩ := split_rep hm t
-  rw [split_eq t s (hne t h2)] at hf
+theorem splitWsInto_spec {out : Cells} {self : Ref} {s : Bytes} (hs : RefModels out self s) :
+    ∃ l, splitWsInto out self = some (liveCells l) ∧ AllModels l (tokensAbs s) := by
+  obtain ⟨rs, h1, hm⟩ := deref_of_models hs
+  obtain ⟨parts, hsp, hf⟩ := splitWs_rep hm
   obtain ⟨l, hl, hlf⟩ := fillArray_spec hf
-  exact ⟨l, t, h2, by simp only [splitSepElem, h1, Option.bind_some, hpm.toList, hp, hl], hlf⟩
+  exact ⟨l, by simp only [splitWsInto, h1, Option.bind_some, hsp, hl, Option.map_some], hlf⟩
 
-theorem splitWsElem_spec {out : List Rep} {ts : List Bytes} (h : AllModels out ts) (k : Nat) (hk : k < out.length) :
-    ∃ l t, ts[k]? = some t ∧ splitWsElem out k = some l ∧ AllModels l (tokensAbs t) := by
-  obtain ⟨p, t, h1, h2, hm⟩ := h.getElem? k hk
-  obtain ⟨parts, hp, hf⟩ := splitWs_rep hm
-  obtain ⟨l, hl, hlf⟩ := fillArray_spec hf
-  exact ⟨l, t, h2, by simp only [splitWsElem, h1, Option.bind_some, hp, hl], hlf⟩
+/-- the statement order before the repair fails as soon as an operand is an element of the output array … -/
+theorem splitIntoOld_fails (out : Cells) (k : Nat) (other : Ref) :
+    splitIntoOld out (.cell k) other = none ∧ splitIntoOld out other (.cell k) = none ∧ splitWsIntoOld out (.cell k) = none := by
+  refine ⟨?_, ?_, ?_⟩
+  · unfold splitIntoOld
+    cases deref (clearCells out) other <;> simp [deref_clear_cell]
+  · unfold splitIntoOld; simp [deref_clear_cell]
+  · unfold splitWsIntoOld; simp [deref_clear_cell]
 
-/-- before the repair the element was gone when it was read, whatever the array held -/
-theorem splitElem_unrepaired_counterexample (out : List Rep) (k : Nat) (sep : Bytes) :
-    splitElemUnrepaired out k sep = none := by
-  simp [splitElemUnrepaired]
+/-- … and was correct when both operands live outside it -/
+theorem splitIntoOld_ext (out : Cells) {r rp : Rep} {s sp : Bytes} (hm : Models r s) (hpm : Models rp sp) (hne : sp ≠ []) :
+    (∃ l, splitIntoOld out (.ext r) (.ext rp) = some (liveCells l) ∧ AllModels l (splitAbs sp [] s)) ∧
+    (∃ l, splitWsIntoOld out (.ext r) = some (liveCells l) ∧ AllModels l (tokensAbs s)) := by
+  constructor
+  · obtain ⟨parts, hsp, hf⟩ := split_rep hm sp
+    rw [split_eq sp s hne] at hf
+    obtain ⟨l, hl, hlf⟩ := copyAll_spec hf
+    exact ⟨l, by simp only [splitIntoOld, deref_clear_ext, Option.bind_some, hpm.toList, hsp, hl, Option.map_some], hlf⟩
+  · obtain ⟨parts, hsp, hf⟩ := splitWs_rep hm
+    obtain ⟨l, hl, hlf⟩ := copyAll_spec hf
+    exact ⟨l, by simp only [splitWsIntoOld, deref_clear_ext, Option.bind_some, hsp, hl, Option.map_some], hlf⟩
 
 end AslProofs.Str
